@@ -233,6 +233,22 @@ func (st *store) exec(line string) (out string) {
 		}
 		st.pjs[ws[1]] = pj
 		return fmt.Sprintf("ok %d %s %d %s %d", len(pj.Tape), h64(fnvWords(pj.Tape)), len(pj.Strings.B), h64(fnvBytes(pj.Strings.B)), len(pj.Message))
+	case "parsereuse":
+		// parsereuse <new> <reuse> <nd> <copy> <hex>: parse with the named object as the reuse argument
+		b := unhx(ws[5])
+		st.inputs[ws[1]] = b
+		var pj *simdjson.ParsedJson
+		var err error
+		if ws[3] == "1" {
+			pj, err = simdjson.ParseND(b, pjOf(ws[2]), simdjson.WithCopyStrings(ws[4] == "1"))
+		} else {
+			pj, err = simdjson.Parse(b, pjOf(ws[2]), simdjson.WithCopyStrings(ws[4] == "1"))
+		}
+		if err != nil {
+			return "err"
+		}
+		st.pjs[ws[1]] = pj
+		return fmt.Sprintf("ok %d", len(pj.Tape))
 	case "tape":
 		pj := pjOf(ws[1])
 		parts := make([]string, len(pj.Tape))
@@ -663,6 +679,28 @@ func (st *store) exec(line string) (out string) {
 			}
 		}
 		return "wf " + ordRoots(roots)
+	case "nopsexact":
+		// every NOP's skip count is the distance to the end of its run of NOP words (C17, deserialized tapes)
+		tp := pjOf(ws[1]).Tape
+		for k := 0; k < len(tp); {
+			t := byte(tp[k] >> 56)
+			switch t {
+			case 'N':
+				want := uint64(1)
+				if k+1 < len(tp) && byte(tp[k+1]>>56) == 'N' {
+					want = tp[k+1]&simdjson.JSONVALUEMASK + 1
+				}
+				if tp[k]&simdjson.JSONVALUEMASK != want {
+					return fmt.Sprintf("inexact %d", k)
+				}
+				k++
+			case 'l', 'u', 'd', '"':
+				k += 2
+			default:
+				k++
+			}
+		}
+		return "exact"
 	case "serde":
 		src := pjOf(ws[2])
 		m1, m2 := nextSerde.m1, nextSerde.m2
